@@ -87,6 +87,79 @@ REDUCE_BODY = ("    fields = dict(opcode=opcode, rd=rd, funct3=funct3, rs1=rs1, 
                "    positions = {'opcode': 0, 'rd': 7, 'funct3': 12, 'rs1': %d, 'rs2': 20, 'funct7': 25}\n"
                "    return reduce(or_, (fields[name] << pos for name, pos in positions.items()), 0)")
 
+CIL_GUARD = ("    if imm < 0 or imm > 255:\n        raise ValueError('6-bit MO4 unsigned immediate must be between 0x00 (0) and 0xff (255): {}'.format(imm))\n"
+             "    if imm % 4 != 0:\n        raise ValueError('6-bit MO4 unsigned immediate must be a multiple of 4: {}'.format(imm))\n")
+CIL_NEGMASK = "    if imm & ~%s:\n        raise ValueError('6-bit MO4 unsigned immediate must be a multiple of 4 between 0 and 252: {}'.format(imm))\n"
+CREG_MASK = ("    if not compressed:\n        return reg\n    if reg >> 3 != %d:\n"
+             "        raise ValueError('compressed register must be between 8 and 15: {}'.format(reg))\n    return reg & 0b111\n")
+ITYPE_MASK_TAIL = ("    imm = c_uint32(imm).value & 0b111111111111\n\n    code = 0\n    code |= opcode\n    code |= rd << 7\n    code |= funct3 << 12\n"
+                   "    code |= rs1 << 15\n    code |= imm << 20\n\n    return code\n\n\n# i-type variation")
+ITYPE_SLIDE = ("    code = 0\n    code |= opcode\n    code |= rd << 7\n    code |= funct3 << 12\n"
+               "    code |= rs1 << 15\n    code |= (imm << 20) & %s\n\n    return code\n\n\n# i-type variation")
+CIA_GUARDS = ("    if imm < -512 or imm > 511:\n        raise ValueError('6-bit MO16 immediate must be between -0x200 (-512) and 0x1ff (511): {}'.format(imm))\n"
+              "    if imm % 16 != 0:\n        raise ValueError('6-bit MO16 immediate must be a multiple of 16: {}'.format(imm))\n")
+OO_CLASSES = """class BitField:
+    def __init__(self, high, low, position):
+        self.high = high
+        self.low = low
+        self.position = position
+
+    @property
+    def width(self):
+        return self.high - self.low + 1
+
+    def place(self, value):
+        return ((value >> self.low) & ((1 << self.width) - 1)) << self.position
+
+
+class ImmediateSpec:
+    def __init__(self, bits, scale=1, layout=()):
+        self.bits = bits
+        self.scale = scale
+        self.layout = layout
+        self.lowest = -(scale << (bits - 1))
+        self.highest = (scale << (bits - 1)) - 1
+
+    def check(self, imm):
+        if not self.lowest <= imm <= self.highest:
+            raise ValueError('immediate out of range: {}'.format(imm))
+        if self.scale != 1 and imm % self.scale:
+            raise ValueError('immediate must be a multiple of {}: {}'.format(self.scale, imm))
+        return imm
+
+    def encode(self, imm):
+        imm = self.check(imm)
+        word = 0
+        for field in self.layout:
+            word |= field.place(imm)
+        return word
+
+
+class ScaledImmediate(ImmediateSpec):
+    def __init__(self, bits, scale, layout):
+        super().__init__(bits, scale=scale, layout=layout)
+
+
+class Word:
+    def __init__(self, value=0):
+        self.value = value
+
+    def put(self, field, position):
+        self.value |= field << position
+        return self
+
+
+CIA_SPEC = ScaledImmediate(6, 16, (BitField(5, 5, 2), BitField(8, 7, @POS@), BitField(6, 6, 5), BitField(4, 4, 6), BitField(9, 9, 12)))
+
+
+"""
+OO_BODY = "    word = Word(opcode).put(0b00010, 7).put(funct3, 13)\n    return word.value | CIA_SPEC.encode(imm)"
+
+
+def oo(pos=3):
+    return [(A, CIA_DEF, OO_CLASSES.replace('@POS@', str(pos)) + CIA_DEF), (A, CIA_GUARDS, "    CIA_SPEC.check(imm)\n"), (A, CIA_BODY, OO_BODY)]
+
+
 PRESERVING = [
     ('p-enc-get-none', ENC, [(A, TABLE_TRY, GET_NONE)]),
     ('p-enc-membership', ENC, [(A, TABLE_TRY, MEMBER)]),
@@ -118,6 +191,10 @@ PRESERVING = [
     ('p-enc-fields-by-arithmetic', ENC, [(A, FENCE_IMM, "    imm = fm * 256 + pred * 16 + succ\n")]),
     ('p-enc-lambda-constraint', ENC, [(A, CNOT, CNOT_LAMBDA % '!=')]),
     ('p-enc-reduce-pack', ENC, [(A, FUNCTOOLS, "from functools import partial, reduce\nfrom operator import or_\n"), (A, RTYPE_BODY, REDUCE_BODY % 15)]),
+    ('p-enc-allowed-bits-mask', ENC, [(A, CIL_GUARD, CIL_NEGMASK % '0b11111100', 0)]),
+    ('p-enc-creg-by-mask', ENC, [(A, COMPRESSED_TAIL, CREG_MASK % 1)]),
+    ('p-enc-slide-in-place', ENC, [(A, ITYPE_MASK_TAIL, ITYPE_SLIDE % '0xfff00000')]),
+    ('p-enc-helper-classes', ENC, oo()),
     ('p-enc-log-call', ENC, [(A, ITYPE_GUARD, "    log.debug('i-type immediate %s', imm)\n" + ITYPE_GUARD, 0)]),
 ]
 
@@ -146,6 +223,10 @@ BREAKING = [
     ('c01-encoder-factory-shift', ['C01'], [(A, RTYPE_DEF, FACTORY % 8 + RTYPE_DEF), (A, "ADD        = partial(r_type,", "ADD        = partial(r_type2,")]),
     ('c02-lambda-constraint-eq', ['C02', 'C06'], [(A, CNOT, CNOT_LAMBDA % '==')]),
     ('c01-reduce-pack-pos', ['C01'], [(A, FUNCTOOLS, "from functools import partial, reduce\nfrom operator import or_\n"), (A, RTYPE_BODY, REDUCE_BODY % 16)]),
+    ('c06-allowed-bits-mask-wide', ['C02', 'C06'], [(A, CIL_GUARD, CIL_NEGMASK % '0b111111100', 0)]),
+    ('c02-creg-by-mask-low', ['C02'], [(A, COMPRESSED_TAIL, CREG_MASK % 0)]),
+    ('c01-slide-in-place-short', ['C01'], [(A, ITYPE_MASK_TAIL, ITYPE_SLIDE % '0x7ff00000')]),
+    ('c02-helper-classes-pos', ['C02'], oo(4)),
     ('c02-closure-message-value', ['C02', 'C06'], [(A, CNOT, CNOT_MSG.replace('fields[field] == value', 'fields[field] != value'))]),
 ]
 
